@@ -6,4 +6,14 @@ MANIFEST = {"text": "wip", "note": "wip"}
 
 
 def jobs(tier):
-    return [sync_job("ASSERT_C03", [CR, EOD]), sync_job("ASSERT_C03", [CR, V4, EOD]), sync_job("ASSERT_C03", [CR, V4, V4, EOD]), sync_job("ASSERT_C03", [CR, V4, V4, V4, EOD]), sync_job("ASSERT_C03", [CR, V4, V4, V4, V4, EOD], extra=["NO_TABLE_FAIL"])]
+    J = []
+    for sk in fam_complete(tier):
+        big = len(sk) >= 6
+        J.append(sync_job("ASSERT_C03", sk, timeout=2400 if big else 900, extra=["NO_TABLE_FAIL"] if big else None,
+                          weight=2 if big else 1))
+    interrupted = fam_after_cr([V4]) + fam_after_cr([V4, KEY]) if tier == "thorough" else fam_after_cr([V4])
+    for sk in fam_after_cr() + interrupted:
+        J.append(sync_job("ASSERT_C03", sk))
+    for sk in fam_openers():
+        J.append(sync_job("ASSERT_C03", sk))
+    return J
